@@ -1,1 +1,127 @@
+//! Generators for character partitions (as interval lists) with hostile alignments.
 
+use crate::util::Rng;
+
+pub const MAXC: u32 = 0x2FFFF;
+
+/// sorted, disjoint, non-empty intervals
+pub type Ivs = Vec<(u32, u32)>;
+
+fn point(rng: &mut Rng) -> u32 {
+    match rng.below(10) {
+        0 | 1 => rng.below(8) as u32,                  // near 0
+        2 | 3 => MAXC - rng.below(8) as u32,           // near the top
+        4..=6 => 0x30 + rng.below(0x50) as u32,        // ascii cluster
+        7 => 0x60 + rng.below(8) as u32,               // tight cluster: adjacent intervals likely
+        _ => rng.below(0x30000) as u32,
+    }
+}
+
+pub fn gen_intervals(rng: &mut Rng, max_n: usize) -> Ivs {
+    match rng.below(20) {
+        0 => return vec![],
+        1 => return vec![(0, MAXC)],
+        2 => return vec![(0, 0)],
+        3 => return vec![(MAXC, MAXC)],
+        _ => {}
+    }
+    let n = 1 + rng.usize(max_n);
+    let mut pts: Vec<u32> = (0..2 * n).map(|_| point(rng)).collect();
+    pts.sort_unstable();
+    let mut out: Ivs = Vec::new();
+    let mut i = 0;
+    while i + 1 < pts.len() {
+        let (a, b) = (pts[i], if rng.chance(1, 4) { pts[i] } else { pts[i + 1] });
+        if out.last().map_or(true, |l| l.1 < a) {
+            out.push((a, b));
+        }
+        i += 2;
+    }
+    // sometimes make neighbours adjacent (b_i + 1 = a_{i+1}) or tile the whole alphabet
+    if rng.chance(1, 4) {
+        for i in 1..out.len() {
+            if rng.chance(1, 2) && out[i - 1].1 + 1 <= out[i].1 {
+                out[i].0 = out[i - 1].1 + 1;
+            }
+        }
+    }
+    if rng.chance(1, 12) && !out.is_empty() {
+        out[0].0 = 0;
+        for i in 1..out.len() {
+            out[i].0 = out[i - 1].1 + 1;
+        }
+        let l = out.len() - 1;
+        out[l].1 = MAXC;
+        out.retain(|&(a, b)| a <= b);
+    }
+    out
+}
+
+/// class of x by definition: index of the interval containing x, or None (complement)
+pub fn class_of(p: &Ivs, x: u32) -> Option<usize> {
+    p.iter().position(|&(a, b)| a <= x && x <= b)
+}
+
+/// least character not covered, or MAXC+1
+pub fn witness(p: &Ivs) -> u32 {
+    let mut c = 0u32;
+    for &(a, b) in p {
+        if c < a {
+            return c;
+        }
+        c = b + 1;
+    }
+    c
+}
+
+/// all break points: for every end point p: p-1, p, p+1 (clamped), an interior point of every interval and gap, 0, MAXC
+pub fn break_points(ps: &[&Ivs]) -> Vec<u32> {
+    let mut v = vec![0, MAXC, MAXC / 2];
+    for p in ps {
+        let mut prev_end: Option<u32> = None;
+        for &(a, b) in p.iter() {
+            for e in [a, b] {
+                v.push(e);
+                if e > 0 {
+                    v.push(e - 1);
+                }
+                if e < MAXC {
+                    v.push(e + 1);
+                }
+            }
+            v.push(a + (b - a) / 2);
+            let gap_lo = prev_end.map_or(0, |e| e + 1);
+            if gap_lo < a {
+                v.push(gap_lo + (a - 1 - gap_lo) / 2);
+            }
+            prev_end = Some(b);
+        }
+        if let Some(e) = prev_end {
+            if e < MAXC {
+                v.push(e + 1 + (MAXC - e - 1) / 2);
+            }
+        }
+    }
+    v.sort_unstable();
+    v.dedup();
+    v
+}
+
+pub fn show(p: &Ivs) -> String {
+    let parts: Vec<String> = p.iter().map(|&(a, b)| format!("{:x}-{:x}", a, b)).collect();
+    format!("{{{}}}", parts.join(" "))
+}
+
+pub fn parse(t: &str) -> Ivs {
+    t.trim()
+        .trim_start_matches('{')
+        .trim_end_matches('}')
+        .split_whitespace()
+        .filter_map(|s| {
+            let mut it = s.split('-');
+            let a = u32::from_str_radix(it.next()?, 16).ok()?;
+            let b = u32::from_str_radix(it.next()?, 16).ok()?;
+            Some((a, b))
+        })
+        .collect()
+}
